@@ -285,13 +285,36 @@ func report(prop, tier string, seed int, rr *RunResult) int {
 	sweepOpen, sweepNew := 0, 0
 	advProved := map[string]int{}
 	var advPending []*Obligation
+	retLive, retTotal := map[string]int{}, map[string]int{}
+	retDead := map[string][]*Obligation{}
 	lockedFam := map[string]int{}
+	lockedFamSeen := map[string]bool{}
 	for n := range locked {
+		if strings.HasSuffix(n, reachableMark) {
+			f := oblFamily(strings.TrimSuffix(n, reachableMark)) + reachableMark
+			lockedFam[f]++
+			lockedFamSeen[f] = true
+			continue
+		}
 		lockedFam[oblFamily(n)]++
 	}
 	for _, o := range rr.Obls {
 		present[o.Name] = o
 		solverSecs += o.Secs
+		if o.Canary && isRetCanary(o.Name) {
+			// reachability of returns is compared by COUNT per function with the ledger: an edit that leaves one return
+			// dead and adds a live one (an early `return` before an `if err != nil { return }`) is not a vacuity signal;
+			// a contradictory contract kills many returns at once
+			canaries++
+			fam := oblFamily(o.Name)
+			retTotal[fam]++
+			if o.Status != "proved" {
+				retLive[fam]++
+			} else {
+				retDead[fam] = append(retDead[fam], o)
+			}
+			continue
+		}
 		if o.Canary {
 			canaries++
 			if o.Status == "proved" {
@@ -364,6 +387,21 @@ func report(prop, tier string, seed int, rr *RunResult) int {
 		}
 	}
 	// locked obligations that disappeared
+	for _, fam := range sortedKeysObl(retDead) {
+		was := lockedFam[fam+reachableMark]
+		if _, known := lockedFamSeen[fam+reachableMark]; !known {
+			was = retTotal[fam] // function not in the ledger yet: every return is expected to be reachable
+		}
+		if retLive[fam] >= was {
+			continue
+		}
+		for _, o := range retDead[fam] {
+			canaryBad++
+			replay := writeReplay(prop, o.Name, fmt.Sprintf("vacuity guard failed: %d return(s) of %s were reachable under its contract on the unchanged tree, %d are now: the precondition / a path condition has become contradictory, so obligations behind it hold vacuously.\n", was, o.Func, retLive[fam])+o.Output, "")
+			fmt.Printf("VIOLATION property=%s replay=%s obligation=%s vacuous-contract no-failing-input-found\n", prop, replay, o.Name)
+			violations++
+		}
+	}
 	for _, o := range advPending {
 		fam := oblFamily(o.Name)
 		if advProved[fam] >= lockedFam[fam] {
@@ -389,6 +427,9 @@ func report(prop, tier string, seed int, rr *RunResult) int {
 	var missing []string
 	renamed := 0
 	for n := range locked {
+		if strings.HasSuffix(n, reachableMark) {
+			continue
+		}
 		if present[n] == nil {
 			if presentFam[oblFamily(n)] {
 				renamed++
@@ -528,6 +569,11 @@ func LockCmd(args []string) int {
 		if o.Canary || o.Status != "proved" {
 			if !o.Canary {
 				fmt.Printf("%-10s %s  [%s] %s\n", o.Status, o.Name, strings.Join(o.Props, ","), o.Desc)
+			} else if o.Status != "proved" && isRetCanary(o.Name) {
+				// a return that is reachable under the contract: the ledger keeps how many there are per function
+				for _, p := range o.Props {
+					lf[p] = append(lf[p], o.Name+reachableMark)
+				}
 			}
 			continue
 		}
@@ -551,7 +597,7 @@ func EffectsCmd(args []string) int { return 2 }
 
 var (
 	famOrd  = regexp.MustCompile(`#\d+$`)
-	famRet  = regexp.MustCompile(`@ret\d+`)
+	famRet  = regexp.MustCompile(`[@/:]ret\d+`)
 	famCall = regexp.MustCompile(`\.\d+/`)
 )
 
@@ -561,4 +607,17 @@ func oblFamily(n string) string {
 	n = famRet.ReplaceAllString(n, "")
 	n = famCall.ReplaceAllString(n, "/")
 	return n
+}
+
+const reachableMark = "~reachable"
+
+func isRetCanary(name string) bool { return strings.Contains(name, "/vacuity:ret") }
+
+func sortedKeysObl(m map[string][]*Obligation) []string {
+	var out []string
+	for k := range m {
+		out = append(out, k)
+	}
+	sort.Strings(out)
+	return out
 }
